@@ -1,28 +1,1424 @@
-//! C08 — (stub; to be implemented, see DESIGN.md section 5 and HARNESS.md)
+//! C08 — From / Into / Constructor preserve field order and invert each other; typed and forwarded
+//! conversions apply exactly one `From::from` per field; the set of generated impls is exactly the
+//! documented one.
+//!
+//! Every case is one struct (deriving a non-empty subset of From / Into / Constructor) or one enum
+//! (deriving From) whose fields are taken from four *families* of helper types defined in the prelude:
+//! `F<i>` is the field type (a non-zero-sized newtype chain `F<i>(R<i>(Q<i>(u32)))`, all at offset 0),
+//! `A<i>`/`B<i>` convert *into* `F<i>`, `X<i>`/`Y<i>` are produced *from* `F<i>`, and `&R<i>`/`&Q<i>`
+//! (`&mut` likewise) are produced from `&F<i>` by re-borrowing the very same memory.  Every one of these
+//! user-level `From` impls pushes an id onto a thread-local log, so "exactly one `From::from` per field"
+//! is an equality of sorted id lists.  Field values are pairwise distinct, field types are pairwise
+//! distinct / all equal / mixed (labelled), so a permutation is visible either to rustc or in values.
+//!
+//! The expected impl set is computed here by a model of the rules stated in `impl/doc/from.md`,
+//! `into.md`, `constructor.md` (and pinned by `tests/from.rs`, `tests/into.rs`), never read off the
+//! expansion.  Presence and absence are decided inside the generated program by the
+//! inherent-const-vs-blanket-trait probe `impls!(T, U)`; the in-process expansion (E1) only *nominates*
+//! additional `(T, U)` pairs to probe (impl headers the model's candidate list does not contain).
+use super::dm;
+use super::proggen::CaseResult;
 use super::progprop::*;
+use super::tok;
+use serde_json::json;
+use std::collections::BTreeSet;
+use std::fmt::Write as _;
 
-fn build(_d: &mut Dice) -> GenCase {
-    let mut c = GenCase::new("pub fn run(o: &mut Out) { o.check(\"stub\", true); }".to_string());
-    c.nontrivial = false;
+// ------------------------------------------------------------------------------------------------
+// prelude of every shard
+
+pub const PRELUDE: &str = r#"
+thread_local! { pub static LOG: std::cell::RefCell<Vec<u32>> = const { std::cell::RefCell::new(Vec::new()) }; }
+pub fn log(id: u32) { LOG.with(|l| l.borrow_mut().push(id)); }
+/// sorted ids of the user-level conversions executed since the last call
+pub fn take_log() -> String { LOG.with(|l| { let mut v = std::mem::take(&mut *l.borrow_mut()); v.sort(); format!("{:?}", v) }) }
+pub trait N { fn n(&self) -> u32; fn set(&mut self, n: u32); }
+pub fn addr<T>(r: &T) -> usize { r as *const T as usize }
+macro_rules! fam {
+    ($id:expr, $F:ident, $R:ident, $Q:ident, $A:ident, $B:ident, $X:ident, $Y:ident) => {
+        #[derive(Debug, Clone, PartialEq)] pub struct $Q(pub u32);
+        #[derive(Debug, Clone, PartialEq)] #[repr(transparent)] pub struct $R(pub $Q);
+        #[derive(Debug, Clone, PartialEq)] #[repr(transparent)] pub struct $F(pub $R);
+        #[derive(Debug, Clone, PartialEq)] pub struct $A(pub u32);
+        #[derive(Debug, Clone, PartialEq)] pub struct $B(pub u32);
+        #[derive(Debug, Clone, PartialEq)] pub struct $X(pub u32);
+        #[derive(Debug, Clone, PartialEq)] pub struct $Y(pub u32);
+        impl $F { pub fn v(n: u32) -> $F { $F($R($Q(n))) } }
+        impl N for $F { fn n(&self) -> u32 { ((self.0).0).0 } fn set(&mut self, n: u32) { ((self.0).0).0 = n; } }
+        impl N for $R { fn n(&self) -> u32 { (self.0).0 } fn set(&mut self, n: u32) { (self.0).0 = n; } }
+        impl N for $Q { fn n(&self) -> u32 { self.0 } fn set(&mut self, n: u32) { self.0 = n; } }
+        impl N for $A { fn n(&self) -> u32 { self.0 } fn set(&mut self, n: u32) { self.0 = n; } }
+        impl N for $B { fn n(&self) -> u32 { self.0 } fn set(&mut self, n: u32) { self.0 = n; } }
+        impl N for $X { fn n(&self) -> u32 { self.0 } fn set(&mut self, n: u32) { self.0 = n; } }
+        impl N for $Y { fn n(&self) -> u32 { self.0 } fn set(&mut self, n: u32) { self.0 = n; } }
+        impl From<$A> for $F { fn from(a: $A) -> $F { log($id * 10 + 1); $F::v(a.0) } }
+        impl From<$B> for $F { fn from(a: $B) -> $F { log($id * 10 + 2); $F::v(a.0) } }
+        impl From<$F> for $X { fn from(f: $F) -> $X { log($id * 10 + 3); $X(f.n()) } }
+        impl From<$F> for $Y { fn from(f: $F) -> $Y { log($id * 10 + 4); $Y(f.n()) } }
+        impl<'a> From<&'a $F> for &'a $R { fn from(f: &'a $F) -> &'a $R { log($id * 10 + 5); &f.0 } }
+        impl<'a> From<&'a $F> for &'a $Q { fn from(f: &'a $F) -> &'a $Q { log($id * 10 + 6); &(f.0).0 } }
+        impl<'a> From<&'a mut $F> for &'a mut $R { fn from(f: &'a mut $F) -> &'a mut $R { log($id * 10 + 7); &mut f.0 } }
+        impl<'a> From<&'a mut $F> for &'a mut $Q { fn from(f: &'a mut $F) -> &'a mut $Q { log($id * 10 + 8); &mut (f.0).0 } }
+    };
+}
+fam!(0, F0, R0, Q0, A0, B0, X0, Y0);
+fam!(1, F1, R1, Q1, A1, B1, X1, Y1);
+fam!(2, F2, R2, Q2, A2, B2, X2, Y2);
+fam!(3, F3, R3, Q3, A3, B3, X3, Y3);
+/// a field type that converts from / into a *tuple* as a whole (one-field structs with a tuple type listed)
+#[derive(Debug, Clone, PartialEq)] pub struct W0(pub u32, pub u32);
+impl From<(A0, A1)> for W0 { fn from(v: (A0, A1)) -> W0 { log(91); W0((v.0).0, (v.1).0) } }
+impl From<W0> for (X0, X1) { fn from(w: W0) -> (X0, X1) { log(92); (X0(w.0), X1(w.1)) } }
+/// `impls!(T, U)`: does `T: From<U>` hold?  (inherent associated const wins over the blanket trait const iff
+/// its where-clause holds; only meaningful for concrete types)
+pub struct Probe<T, U>(core::marker::PhantomData<(T, U)>);
+pub trait ProbeFallback { const IMPLS: bool = false; }
+impl<T, U> ProbeFallback for Probe<T, U> {}
+impl<T: From<U>, U> Probe<T, U> { pub const IMPLS: bool = true; }
+macro_rules! impls { ($t:ty, $u:ty) => { <Probe<$t, $u>>::IMPLS }; }
+"#;
+
+// ------------------------------------------------------------------------------------------------
+// the type universe
+
+#[derive(Clone, Copy, Debug, PartialEq, Eq, PartialOrd, Ord, Hash)]
+enum Ty {
+    F(u8),
+    A(u8),
+    B(u8),
+    X(u8),
+    Y(u8),
+    R(u8),
+    Q(u8),
+}
+
+impl Ty {
+    fn fam(self) -> u8 {
+        match self {
+            Ty::F(f) | Ty::A(f) | Ty::B(f) | Ty::X(f) | Ty::Y(f) | Ty::R(f) | Ty::Q(f) => f,
+        }
+    }
+    fn name(self) -> String {
+        let c = match self {
+            Ty::F(_) => 'F',
+            Ty::A(_) => 'A',
+            Ty::B(_) => 'B',
+            Ty::X(_) => 'X',
+            Ty::Y(_) => 'Y',
+            Ty::R(_) => 'R',
+            Ty::Q(_) => 'Q',
+        };
+        format!("{c}{}", self.fam())
+    }
+    fn ctor(self, n: u32) -> String {
+        match self {
+            Ty::F(f) => format!("F{f}::v({n})"),
+            _ => format!("{}({n})", self.name()),
+        }
+    }
+    /// id pushed by the prelude impl that converts between this type and `F<fam>`; `None`: the
+    /// conversion is the reflexive `impl From<T> for T` of core (logs nothing).
+    /// `kind`: 0 owned, 1 ref, 2 ref_mut (only relevant for R/Q).
+    fn log_id(self, kind: usize) -> Option<u32> {
+        let k = match (self, kind) {
+            (Ty::F(_), _) => return None,
+            (Ty::A(_), _) => 1,
+            (Ty::B(_), _) => 2,
+            (Ty::X(_), _) => 3,
+            (Ty::Y(_), _) => 4,
+            (Ty::R(_), 2) => 7,
+            (Ty::Q(_), 2) => 8,
+            (Ty::R(_), _) => 5,
+            (Ty::Q(_), _) => 6,
+        };
+        Some(self.fam() as u32 * 10 + k)
+    }
+}
+
+fn tup(parts: &[String]) -> String {
+    match parts.len() {
+        0 => "()".to_string(),
+        1 => parts[0].clone(),
+        _ => format!("({})", parts.join(", ")),
+    }
+}
+
+fn tys_str(t: &[Ty]) -> String {
+    tup(&t.iter().map(|a| a.name()).collect::<Vec<_>>())
+}
+
+const KIND_NAME: [&str; 3] = ["owned", "ref", "ref_mut"];
+/// reference prefix in type position (probes) / elided (expressions) / value position
+const REF_TY_STATIC: [&str; 3] = ["", "&'static ", "&'static mut "];
+const REF_TY: [&str; 3] = ["", "&", "&mut "];
+
+fn kind_tys_str(kind: usize, t: &[Ty], stat: bool) -> String {
+    let p = if stat { REF_TY_STATIC[kind] } else { REF_TY[kind] };
+    tup(&t.iter().map(|a| format!("{p}{}", a.name())).collect::<Vec<_>>())
+}
+
+fn log_str(ids: &[u32]) -> String {
+    let mut v = ids.to_vec();
+    v.sort();
+    format!("{v:?}")
+}
+
+/// uniformly random permutation of 0..n; all-zero dice give the identity
+fn perm(d: &mut Dice, n: usize) -> Vec<usize> {
+    let mut v: Vec<usize> = (0..n).collect();
+    for i in 0..n {
+        let j = i + d.pick(n - i);
+        v.swap(i, j);
+    }
+    v
+}
+
+// ------------------------------------------------------------------------------------------------
+// item model
+
+#[derive(Clone, Copy, Debug, PartialEq, Eq)]
+enum Shape {
+    Unit,
+    Tuple,
+    Named,
+}
+
+#[derive(Clone, Debug)]
+enum IntoPart {
+    /// `#[into(T1, T2)]`
+    Plain(Vec<Vec<Ty>>),
+    /// `#[into(owned, ref(T1, T2), ref_mut)]`
+    Wrapped(Vec<(usize, Option<Vec<Vec<Ty>>>)>),
+}
+
+#[derive(Clone, Debug)]
+enum IntoAttr {
+    /// `#[into]`
+    Empty,
+    /// one attribute per part
+    Parts(Vec<IntoPart>),
+}
+
+#[derive(Clone, Debug)]
+struct Fld {
+    /// `0` / `a`
+    member: String,
+    fam: u8,
+    val: u32,
+    into_skip: Option<&'static str>,
+    into_attr: Option<IntoAttr>,
+    /// the skip attribute is written before the conversion attribute
+    skip_first: bool,
+}
+
+#[derive(Clone, Debug)]
+enum FromAttr {
+    None,
+    /// `#[from]`
+    Empty,
+    /// `#[from(skip)]` / `#[from(ignore)]`
+    Skip(&'static str),
+    /// `#[from(forward)]`
+    Forward,
+    /// one attribute per group: `#[from(T1, T2)]`, every type a tuple of the fields' arity
+    Types(Vec<Vec<Vec<Ty>>>),
+}
+
+impl FromAttr {
+    fn render(&self, indent: &str) -> String {
+        match self {
+            FromAttr::None => String::new(),
+            FromAttr::Empty => format!("{indent}#[from]\n"),
+            FromAttr::Skip(s) => format!("{indent}#[from({s})]\n"),
+            FromAttr::Forward => format!("{indent}#[from(forward)]\n"),
+            FromAttr::Types(groups) => groups
+                .iter()
+                .map(|g| format!("{indent}#[from({})]\n", g.iter().map(|t| tys_str(t)).collect::<Vec<_>>().join(", ")))
+                .collect(),
+        }
+    }
+    fn label(&self) -> &'static str {
+        match self {
+            FromAttr::None => "none",
+            FromAttr::Empty => "empty",
+            FromAttr::Skip(_) => "skip",
+            FromAttr::Forward => "forward",
+            FromAttr::Types(_) => "types",
+        }
+    }
+}
+
+impl IntoAttr {
+    fn render(&self) -> Vec<String> {
+        match self {
+            IntoAttr::Empty => vec!["#[into]".to_string()],
+            IntoAttr::Parts(parts) => parts
+                .iter()
+                .map(|p| match p {
+                    IntoPart::Plain(tys) => format!("#[into({})]", tys.iter().map(|t| tys_str(t)).collect::<Vec<_>>().join(", ")),
+                    IntoPart::Wrapped(es) => format!(
+                        "#[into({})]",
+                        es.iter()
+                            .map(|(k, tys)| match tys {
+                                None => KIND_NAME[*k].to_string(),
+                                Some(tys) => format!("{}({})", KIND_NAME[*k], tys.iter().map(|t| tys_str(t)).collect::<Vec<_>>().join(", ")),
+                            })
+                            .collect::<Vec<_>>()
+                            .join(", ")
+                    ),
+                })
+                .collect(),
+        }
+    }
+}
+
+fn fld_attrs(f: &Fld) -> String {
+    let mut parts: Vec<String> = vec![];
+    let skip = f.into_skip.map(|s| format!("#[into({s})]"));
+    let conv = f.into_attr.as_ref().map(|a| a.render()).unwrap_or_default();
+    if f.skip_first {
+        parts.extend(skip.clone());
+        parts.extend(conv);
+    } else {
+        parts.extend(conv);
+        parts.extend(skip);
+    }
+    if parts.is_empty() {
+        String::new()
+    } else {
+        format!("{} ", parts.join(" "))
+    }
+}
+
+fn decl_fields(shape: Shape, fields: &[Fld], with_attrs: bool) -> String {
+    let one = |f: &Fld| {
+        let a = if with_attrs { fld_attrs(f) } else { String::new() };
+        match shape {
+            Shape::Named => format!("{a}{}: F{}", f.member, f.fam),
+            _ => format!("{a}F{}", f.fam),
+        }
+    };
+    let inner = fields.iter().map(one).collect::<Vec<_>>().join(", ");
+    match shape {
+        Shape::Unit => String::new(),
+        Shape::Tuple => format!("({inner})"),
+        Shape::Named => format!("{{ {inner} }}"),
+    }
+}
+
+/// literal of the struct / variant with the given per-field values
+fn literal(path: &str, shape: Shape, fields: &[Fld], vals: &[u32]) -> String {
+    let inner = |named: bool| {
+        fields
+            .iter()
+            .zip(vals)
+            .map(|(f, v)| if named { format!("{}: F{}::v({v})", f.member, f.fam) } else { format!("F{}::v({v})", f.fam) })
+            .collect::<Vec<_>>()
+            .join(", ")
+    };
+    match shape {
+        Shape::Unit => path.to_string(),
+        Shape::Tuple => format!("{path}({})", inner(false)),
+        Shape::Named => format!("{path} {{ {} }}", inner(true)),
+    }
+}
+
+// ------------------------------------------------------------------------------------------------
+// the model of the documented rules
+
+/// Source of one `From<..> for T` impl.
+#[derive(Clone, Debug, PartialEq)]
+enum Src {
+    /// `From<(T0, T1, ..)>`
+    Concrete(Vec<Ty>),
+    /// `impl<T0, ..> From<(T0, ..)> where F<fam_i>: From<Ti>`
+    Forward(Vec<u8>),
+}
+
+/// `F<f>: From<atom>` holds in the prelude (reflexive, A, B)
+fn conv_ok(atom: Ty, f: u8) -> bool {
+    atom.fam() == f && matches!(atom, Ty::F(_) | Ty::A(_) | Ty::B(_))
+}
+
+fn src_matches(s: &Src, u: &[Ty]) -> bool {
+    match s {
+        Src::Concrete(c) => c.as_slice() == u,
+        Src::Forward(fams) => fams.len() == u.len() && fams.iter().zip(u).all(|(f, a)| conv_ok(*a, *f)),
+    }
+}
+
+/// would rustc report E0119 for two impls with these sources on the same type?
+fn srcs_overlap(a: &Src, b: &Src) -> bool {
+    match (a, b) {
+        (Src::Concrete(x), Src::Concrete(y)) => x == y,
+        (Src::Concrete(x), f @ Src::Forward(_)) | (f @ Src::Forward(_), Src::Concrete(x)) => src_matches(f, x),
+        // two blanket impls of one arity: the where-clauses are ambiguous for an uninstantiated parameter
+        (Src::Forward(x), Src::Forward(y)) => x.len() == y.len(),
+    }
+}
+
+/// from.md: a struct gets one impl from the tuple of its field types, or one per listed type, or the
+/// forwarded blanket impl.  An enum variant is treated "as if it were a struct", except: `skip`/`ignore`
+/// gives none; a variant without fields gives none unless annotated; an un-annotated variant gives none
+/// once any variant carries `#[from]` / types / forward.
+fn from_sources(attr: &FromAttr, fams: &[u8], is_variant: bool, has_explicit: bool) -> Vec<Src> {
+    let own = || Src::Concrete(fams.iter().map(|f| Ty::F(*f)).collect());
+    match attr {
+        FromAttr::Types(groups) => groups.iter().flatten().map(|t| Src::Concrete(t.clone())).collect(),
+        FromAttr::Forward => vec![Src::Forward(fams.to_vec())],
+        FromAttr::Empty => vec![own()],
+        FromAttr::Skip(_) => vec![],
+        FromAttr::None => {
+            if is_variant && (has_explicit || fams.is_empty()) {
+                vec![]
+            } else {
+                vec![own()]
+            }
+        }
+    }
+}
+
+#[derive(Clone, Debug, Default)]
+struct Conv {
+    fields_ty: bool,
+    tys: Vec<Vec<Ty>>,
+}
+
+/// into.md: `#[into]` = owned conversion into the field types; plain types = owned conversions into the
+/// listed types (and not into the field types); `owned`/`ref`/`ref_mut` bare = that kind into the field
+/// types, with a list = that kind into the listed types; repeated attributes add up.
+fn fold(a: &IntoAttr) -> [Conv; 3] {
+    let mut c: [Conv; 3] = Default::default();
+    match a {
+        IntoAttr::Empty => c[0].fields_ty = true,
+        IntoAttr::Parts(parts) => {
+            for p in parts {
+                match p {
+                    IntoPart::Plain(tys) => c[0].tys.extend(tys.iter().cloned()),
+                    IntoPart::Wrapped(es) => {
+                        for (k, tys) in es {
+                            match tys {
+                                None => c[*k].fields_ty = true,
+                                Some(tys) => c[*k].tys.extend(tys.iter().cloned()),
+                            }
+                        }
+                    }
+                }
+            }
+        }
+    }
     c
+}
+
+/// One expected `impl From<[&[mut]] S> for ([&[mut]] target..)`.
+#[derive(Clone, Debug, PartialEq, Eq, PartialOrd, Ord)]
+struct IntoImpl {
+    kind: usize,
+    target: Vec<Ty>,
+    /// indices of the fields the components are taken from
+    fields: Vec<usize>,
+    field_level: bool,
+}
+
+/// into.md: every field with a conversion attribute gets its own impls; the struct-level tuple conversion
+/// (over the non-skipped fields, in declaration order) exists if the struct has an attribute, or if no field
+/// has a conversion attribute (then it is the default owned one).
+fn into_impls(fields: &[Fld], struct_attr: &Option<IntoAttr>) -> Vec<IntoImpl> {
+    let mut out = vec![];
+    for (i, f) in fields.iter().enumerate() {
+        if let Some(a) = &f.into_attr {
+            let c = fold(a);
+            for k in 0..3 {
+                if c[k].fields_ty {
+                    out.push(IntoImpl { kind: k, target: vec![Ty::F(f.fam)], fields: vec![i], field_level: true });
+                }
+                for t in &c[k].tys {
+                    out.push(IntoImpl { kind: k, target: t.clone(), fields: vec![i], field_level: true });
+                }
+            }
+        }
+    }
+    let convs = match struct_attr {
+        Some(a) => Some(fold(a)),
+        None if fields.iter().all(|f| f.into_attr.is_none()) => Some(fold(&IntoAttr::Empty)),
+        None => None,
+    };
+    if let Some(c) = convs {
+        let idx: Vec<usize> = (0..fields.len()).filter(|i| fields[*i].into_skip.is_none()).collect();
+        for k in 0..3 {
+            if c[k].fields_ty {
+                out.push(IntoImpl { kind: k, target: idx.iter().map(|i| Ty::F(fields[*i].fam)).collect(), fields: idx.clone(), field_level: false });
+            }
+            for t in &c[k].tys {
+                out.push(IntoImpl { kind: k, target: t.clone(), fields: idx.clone(), field_level: false });
+            }
+        }
+    }
+    out
+}
+
+fn has_dup_into(impls: &[IntoImpl]) -> bool {
+    let mut seen = BTreeSet::new();
+    impls.iter().any(|i| !seen.insert((i.kind, i.target.clone())))
+}
+
+// ------------------------------------------------------------------------------------------------
+// generators of attributes
+
+fn gen_from_types(d: &mut Dice, fams: &[u8]) -> Vec<Vec<Vec<Ty>>> {
+    let ngroups = if d.chance(30) { 2 } else { 1 };
+    let mut seen = BTreeSet::new();
+    let mut groups = vec![];
+    for _ in 0..ngroups {
+        let nt = 1 + d.pick(2);
+        let mut tys = vec![];
+        for _ in 0..nt {
+            let t: Vec<Ty> = fams.iter().map(|f| [Ty::A(*f), Ty::F(*f), Ty::B(*f)][d.pick(3)]).collect();
+            if seen.insert(t.clone()) {
+                tys.push(t);
+            }
+        }
+        if !tys.is_empty() {
+            groups.push(tys);
+        }
+    }
+    groups
+}
+
+fn gen_target(d: &mut Dice, tf: &[u8], kind: usize) -> Vec<Ty> {
+    tf.iter()
+        .map(|f| {
+            let i = d.pick(3);
+            if kind == 0 {
+                [Ty::X(*f), Ty::F(*f), Ty::Y(*f)][i]
+            } else {
+                [Ty::R(*f), Ty::F(*f), Ty::Q(*f)][i]
+            }
+        })
+        .collect()
+}
+
+/// `tf`: families of the fields the conversion ranges over (struct level: the non-skipped ones)
+fn gen_into_attr(d: &mut Dice, tf: &[u8]) -> IntoAttr {
+    let typed_ok = !tf.is_empty();
+    match d.weighted(&[2, 5, if typed_ok { 3 } else { 0 }]) {
+        0 => IntoAttr::Empty,
+        1 => {
+            let nattr = if d.chance(25) { 2 } else { 1 };
+            let mut bare = [false; 3];
+            let mut seen = BTreeSet::new();
+            let mut parts = vec![];
+            for _ in 0..nattr {
+                let ne = 1 + d.weighted(&[5, 3, 2]);
+                let mut used = [false; 3];
+                let mut es = vec![];
+                for _ in 0..ne {
+                    let k = d.pick(3);
+                    if used[k] {
+                        continue;
+                    }
+                    if typed_ok && d.chance(40) {
+                        let nt = 1 + d.pick(2);
+                        let mut tys = vec![];
+                        for _ in 0..nt {
+                            let t = gen_target(d, tf, k);
+                            if seen.insert((k, t.clone())) {
+                                tys.push(t);
+                            }
+                        }
+                        if !tys.is_empty() {
+                            used[k] = true;
+                            es.push((k, Some(tys)));
+                        }
+                    } else if !bare[k] {
+                        bare[k] = true;
+                        used[k] = true;
+                        es.push((k, None));
+                    }
+                }
+                if !es.is_empty() {
+                    parts.push(IntoPart::Wrapped(es));
+                }
+            }
+            if parts.is_empty() {
+                parts.push(IntoPart::Wrapped(vec![(0, None)]));
+            }
+            IntoAttr::Parts(parts)
+        }
+        _ => {
+            let nattr = if d.chance(25) { 2 } else { 1 };
+            let mut seen = BTreeSet::new();
+            let mut parts = vec![];
+            for _ in 0..nattr {
+                let nt = 1 + d.pick(2);
+                let mut tys = vec![];
+                for _ in 0..nt {
+                    let t = gen_target(d, tf, 0);
+                    if seen.insert(t.clone()) {
+                        tys.push(t);
+                    }
+                }
+                if !tys.is_empty() {
+                    parts.push(IntoPart::Plain(tys));
+                }
+            }
+            IntoAttr::Parts(parts)
+        }
+    }
+}
+
+fn gen_fields(d: &mut Dice, nf: usize, shape: Shape, labels: &mut Vec<String>) -> Vec<Fld> {
+    let mode = if nf < 2 { 0 } else { d.weighted(&[5, 3, 2]) };
+    let fams: Vec<u8> = match mode {
+        0 => perm(d, 4).into_iter().take(nf).map(|x| x as u8).collect(),
+        1 => {
+            let f = d.pick(4) as u8;
+            vec![f; nf]
+        }
+        _ => (0..nf).map(|_| d.pick(2) as u8).collect(),
+    };
+    if nf >= 2 {
+        let distinct = fams.iter().collect::<BTreeSet<_>>().len();
+        labels.push(
+            if distinct == nf {
+                "types=pairwise_distinct"
+            } else if distinct == 1 {
+                "types=all_equal"
+            } else {
+                "types=some_equal"
+            }
+            .to_string(),
+        );
+    }
+    // declaration order is deliberately not the alphabetical one
+    let pool = ["z", "a", "m", "b"];
+    let order = perm(d, 4);
+    (0..nf)
+        .map(|i| Fld {
+            member: if shape == Shape::Named { pool[order[i]].to_string() } else { i.to_string() },
+            fam: fams[i],
+            val: (1 + d.pick(8000) as u32) * 8 + i as u32,
+            into_skip: None,
+            into_attr: None,
+            skip_first: true,
+        })
+        .collect()
+}
+
+// ------------------------------------------------------------------------------------------------
+// probes (presence / absence of impls)
+
+#[derive(Clone, Debug)]
+struct ProbeC {
+    self_ty: String,
+    arg: String,
+    expected: bool,
+}
+
+/// canonical spelling of a type for comparing impl headers: redundant parentheses removed, all lifetimes
+/// `'static`, no whitespace
+fn canon_ty(t: &syn::Type) -> String {
+    match t {
+        syn::Type::Paren(p) => canon_ty(&p.elem),
+        syn::Type::Group(g) => canon_ty(&g.elem),
+        syn::Type::Tuple(t) => {
+            if t.elems.len() == 1 {
+                format!("({},)", canon_ty(&t.elems[0]))
+            } else {
+                format!("({})", t.elems.iter().map(canon_ty).collect::<Vec<_>>().join(","))
+            }
+        }
+        syn::Type::Reference(r) => format!("&'static {}{}", if r.mutability.is_some() { "mut " } else { "" }, canon_ty(&r.elem)),
+        other => tok::ts_string(other).replace(' ', ""),
+    }
+}
+
+fn canon_str(s: &str) -> String {
+    syn::parse_str::<syn::Type>(s).map(|t| canon_ty(&t)).unwrap_or_else(|_| s.replace(' ', ""))
+}
+
+/// E1 pre-screen: headers `impl From<ARG> for SELF` (without type parameters of their own) of the
+/// in-process expansion. Only nominates pairs to probe; the verdict is the probe's.
+fn nominate(item_src: &str, derive: &str) -> Vec<(String, String)> {
+    let Ok(item) = syn::parse_str::<syn::DeriveInput>(item_src) else { return vec![] };
+    let Some(dv) = dm::Derive::by_name(derive) else { return vec![] };
+    let dm::Outcome::Ok(ts) = dm::expand(dv, &item) else { return vec![] };
+    let Ok(impls) = tok::impls(&ts) else { return vec![] };
+    let mut out = vec![];
+    for i in impls {
+        if tok::impl_trait_name(&i).as_deref() != Some("From") {
+            continue;
+        }
+        if i.generics.type_params().next().is_some() || i.generics.const_params().next().is_some() {
+            continue;
+        }
+        let Some((_, path, _)) = &i.trait_ else { continue };
+        let Some(seg) = path.segments.last() else { continue };
+        let syn::PathArguments::AngleBracketed(ab) = &seg.arguments else { continue };
+        let Some(syn::GenericArgument::Type(arg)) = ab.args.first() else { continue };
+        out.push((canon_ty(&i.self_ty), canon_ty(arg)));
+    }
+    out
+}
+
+/// to the text of a `'static`-spelled type usable inside `impls!`
+fn canon_to_src(c: &str) -> String {
+    c.replace(',', ", ").replace(", )", ",)")
+}
+
+struct Probes {
+    list: Vec<ProbeC>,
+    seen: BTreeSet<(String, String)>,
+    /// impl headers listed by the in-process expansion / those of them the model's candidates did not contain
+    nominated_total: usize,
+    nominated_extra: usize,
+}
+
+impl Probes {
+    fn new() -> Probes {
+        Probes { list: vec![], seen: BTreeSet::new(), nominated_total: 0, nominated_extra: 0 }
+    }
+    fn add(&mut self, self_ty: String, arg: String, expected: bool) {
+        if self.seen.insert((canon_str(&self_ty), canon_str(&arg))) {
+            self.list.push(ProbeC { self_ty, arg, expected });
+        }
+    }
+    /// headers the model's candidate list does not contain are probed with expectation "absent": every
+    /// impl the model expects is already in the list
+    fn add_nominated(&mut self, noms: Vec<(String, String)>) {
+        self.nominated_total += noms.len();
+        for (s, a) in noms {
+            if !self.seen.contains(&(s.clone(), a.clone())) {
+                self.nominated_extra += 1;
+                self.seen.insert((s.clone(), a.clone()));
+                self.list.push(ProbeC { self_ty: canon_to_src(&s), arg: canon_to_src(&a), expected: false });
+            }
+        }
+    }
+    fn render(&self, out: &mut String) {
+        for p in &self.list {
+            let _ = writeln!(
+                out,
+                "    o.eq(\"impl `{}: From<{}>` exists\", \"{}\", &impls!({}, {}).to_string());",
+                p.self_ty, p.arg, p.expected, p.self_ty, p.arg
+            );
+        }
+    }
+}
+
+/// candidate source tuples for `T: From<..>` around one struct / variant with field families `fams`
+fn from_candidates(d: &mut Dice, fams: &[u8], attr: &FromAttr) -> Vec<Vec<Ty>> {
+    let own: Vec<Ty> = fams.iter().map(|f| Ty::F(*f)).collect();
+    let mut c = vec![own.clone()];
+    if let FromAttr::Types(groups) = attr {
+        c.extend(groups.iter().flatten().cloned());
+    }
+    if !fams.is_empty() {
+        // all-A: present only under forward or when listed
+        c.push(fams.iter().map(|f| Ty::A(*f)).collect());
+        // a random F/A/B substitution
+        c.push(fams.iter().map(|f| [Ty::B(*f), Ty::A(*f), Ty::F(*f)][d.pick(3)]).collect());
+        // one position moved to another family
+        let mut t = own.clone();
+        let i = d.pick(t.len());
+        t[i] = Ty::A((fams[i] + 1) % 4);
+        c.push(t);
+        // one field less / one more
+        c.push(own[..own.len() - 1].to_vec());
+    }
+    if fams.len() >= 2 {
+        let mut r = own.clone();
+        r.reverse();
+        c.push(r);
+        let mut r: Vec<Ty> = fams.iter().map(|f| Ty::A(*f)).collect();
+        r.reverse();
+        c.push(r);
+    }
+    if fams.len() < 4 {
+        let mut t = own.clone();
+        t.push(Ty::F(3));
+        c.push(t);
+    }
+    c.push(vec![]);
+    c
+}
+
+// ------------------------------------------------------------------------------------------------
+// oracle blocks
+
+/// one `From` conversion into `ty_name` (a struct, or the variant `path` of an enum)
+fn from_block(out: &mut String, d: &mut Dice, ty_name: &str, path: &str, shape: Shape, fields: &[Fld], src: &[Ty]) {
+    let vals: Vec<u32> = fields.iter().map(|f| f.val).collect();
+    let src_ty = tys_str(src);
+    let src_val = tup(&src.iter().zip(&vals).map(|(a, v)| a.ctor(*v)).collect::<Vec<_>>());
+    let ids: Vec<u32> = src.iter().filter_map(|a| a.log_id(0)).collect();
+    let lit = literal(path, shape, fields, &vals);
+    let call = if d.chance(30) {
+        format!("let v: {ty_name} = {src_val}.into();")
+    } else {
+        format!("let v = <{ty_name} as From<{src_ty}>>::from({src_val});")
+    };
+    let _ = writeln!(
+        out,
+        "    {{\n        let _ = take_log();\n        {call}\n        o.eq(\"{ty_name}::from({src_ty}) puts the i-th component into the i-th field\", &format!(\"{{:?}}\", {lit}), &format!(\"{{:?}}\", v));\n        o.eq(\"{ty_name}::from({src_ty}) applies exactly one user-level From::from per converted field\", \"{}\", &take_log());\n    }}",
+        log_str(&ids)
+    );
+}
+
+fn access(shape: Shape, f: &Fld) -> String {
+    let _ = shape;
+    format!("s.{}", f.member)
+}
+
+fn into_block(out: &mut String, d: &mut Dice, shape: Shape, fields: &[Fld], im: &IntoImpl) {
+    let k = im.kind;
+    let n = im.target.len();
+    let tty = kind_tys_str(k, &im.target, false);
+    let comp = |i: usize| if n == 1 { "t".to_string() } else { format!("t.{i}") };
+    let vals: Vec<u32> = im.fields.iter().map(|i| fields[*i].val).collect();
+    let ids: Vec<u32> = im.target.iter().filter_map(|a| a.log_id(k)).collect();
+    let what = format!("<{tty}>::from({}S)", REF_TY[k]);
+    let got_vals = format!("vec![{}] as Vec<u32>", (0..n).map(|i| format!("{}.n()", comp(i))).collect::<Vec<_>>().join(", "));
+    let got_vals = if n == 0 { "Vec::<u32>::new()".to_string() } else { got_vals };
+    let level = if im.field_level { "field-level" } else { "struct-level" };
+    match k {
+        0 => {
+            let call = if d.chance(30) { format!("let t: {tty} = s.into();") } else { format!("let t = <{tty} as From<S>>::from(s);") };
+            let unit = if n == 0 { "\n        let () = t;" } else { "" };
+            let _ = writeln!(
+                out,
+                "    {{\n        let s = mk();\n        let _ = take_log();\n        {call}{unit}\n        o.eq(\"{what} ({level}) extracts the non-skipped fields in declaration order\", \"{vals:?}\", &format!(\"{{:?}}\", {got_vals}));\n        o.eq(\"{what} applies exactly one user-level From::from per converted field\", \"{}\", &take_log());\n    }}",
+                log_str(&ids)
+            );
+        }
+        1 => {
+            let same = (0..n).map(|i| format!("addr({}) == addr(&{})", comp(i), access(shape, &fields[im.fields[i]]))).collect::<Vec<_>>().join(", ");
+            let same = if n == 0 { "Vec::<bool>::new()".to_string() } else { format!("vec![{same}] as Vec<bool>") };
+            let unit = if n == 0 { "\n        let () = t;" } else { "" };
+            let _ = writeln!(
+                out,
+                "    {{\n        let s = mk();\n        let _ = take_log();\n        let t = <{tty} as From<&S>>::from(&s);{unit}\n        o.eq(\"{what} ({level}) borrows the non-skipped fields in declaration order\", \"{vals:?}\", &format!(\"{{:?}}\", {got_vals}));\n        o.eq(\"{what} yields references to those very fields\", \"{:?}\", &format!(\"{{:?}}\", {same}));\n        o.eq(\"{what} applies exactly one user-level From::from per converted field\", \"{}\", &take_log());\n    }}",
+                vec![true; n],
+                log_str(&ids)
+            );
+        }
+        _ => {
+            let want = (0..n).map(|i| format!("addr(&{})", access(shape, &fields[im.fields[i]]))).collect::<Vec<_>>().join(", ");
+            let got = (0..n).map(|i| format!("addr(&*{})", comp(i))).collect::<Vec<_>>().join(", ");
+            let (want, got) = if n == 0 { ("Vec::<usize>::new()".to_string(), "Vec::<usize>::new()".to_string()) } else { (format!("vec![{want}] as Vec<usize>"), format!("vec![{got}] as Vec<usize>")) };
+            let sets: String = (0..n).map(|i| format!("            {}.set({});\n", comp(i), vals[i] + 1_000_000)).collect();
+            let mut after: Vec<u32> = fields.iter().map(|f| f.val).collect();
+            for i in &im.fields {
+                after[*i] += 1_000_000;
+            }
+            let lit_after = literal("S", shape, fields, &after);
+            let unit = if n == 0 { "\n            let () = t;" } else { "" };
+            let _ = writeln!(
+                out,
+                "    {{\n        let mut s = mk();\n        let _ = take_log();\n        let want = {want};\n        {{\n            let t = <{tty} as From<&mut S>>::from(&mut s);{unit}\n            o.eq(\"{what} ({level}) borrows the non-skipped fields in declaration order\", \"{vals:?}\", &format!(\"{{:?}}\", {got_vals}));\n            o.check(\"{what} yields mutable references to those very fields\", want == {got});\n{sets}        }}\n        o.eq(\"writes through {what} reach exactly the borrowed fields\", &format!(\"{{:?}}\", {lit_after}), &format!(\"{{:?}}\", s));\n        o.eq(\"{what} applies exactly one user-level From::from per converted field\", \"{}\", &take_log());\n    }}",
+                log_str(&ids)
+            );
+        }
+    }
+}
+
+// ------------------------------------------------------------------------------------------------
+// struct cases
+
+fn nf_draw(d: &mut Dice) -> usize {
+    [1, 2, 3, 0, 4][d.weighted(&[3, 5, 4, 1, 2])]
+}
+
+fn shape_draw(d: &mut Dice, nf: usize) -> Shape {
+    if nf == 0 {
+        [Shape::Tuple, Shape::Named, Shape::Unit][d.pick(3)]
+    } else {
+        [Shape::Tuple, Shape::Named][d.pick(2)]
+    }
+}
+
+fn build_struct(d: &mut Dice) -> GenCase {
+    let mut labels = vec!["kind=struct".to_string()];
+    let nf = nf_draw(d);
+    let shape = shape_draw(d, nf);
+    let mut fields = gen_fields(d, nf, shape, &mut labels);
+    let fams: Vec<u8> = fields.iter().map(|f| f.fam).collect();
+    let mut d_from = d.chance(60);
+    let d_into = d.chance(60);
+    let d_ctor = d.chance(35);
+    if !d_from && !d_into && !d_ctor {
+        d_from = true;
+    }
+    // ---- From
+    let mut from_attr = FromAttr::None;
+    if d_from && nf > 0 {
+        match d.weighted(&[4, 4, 2]) {
+            0 => {}
+            1 => {
+                let g = gen_from_types(d, &fams);
+                if !g.is_empty() {
+                    from_attr = FromAttr::Types(g);
+                }
+            }
+            _ => from_attr = FromAttr::Forward,
+        }
+    }
+    // ---- Into
+    let mut into_struct: Option<IntoAttr> = None;
+    if d_into {
+        let mut tries = 0;
+        loop {
+            for f in fields.iter_mut() {
+                f.into_skip = if d.chance(25) { Some(if d.chance(30) { "ignore" } else { "skip" }) } else { None };
+                f.into_attr = if d.chance(22) { Some(gen_into_attr(d, &[f.fam])) } else { None };
+                f.skip_first = !d.chance(40);
+            }
+            let tf: Vec<u8> = fields.iter().filter(|f| f.into_skip.is_none()).map(|f| f.fam).collect();
+            into_struct = if d.chance(60) { Some(gen_into_attr(d, &tf)) } else { None };
+            if !has_dup_into(&into_impls(&fields, &into_struct)) {
+                break;
+            }
+            tries += 1;
+            if tries >= 3 {
+                // coherent by construction: no field-level conversions, default struct-level one
+                for f in fields.iter_mut() {
+                    f.into_attr = None;
+                }
+                into_struct = None;
+                labels.push("into_dedup_fallback".into());
+                break;
+            }
+        }
+    }
+    let impls = if d_into { into_impls(&fields, &into_struct) } else { vec![] };
+    // `#[from(forward)]` on a one-field struct is `impl<T> From<T> for S where F: From<T>`; together with an
+    // Into impl `From<S> for F` it would overlap with core's reflexive `From<S> for S`: the combination is
+    // incoherent by itself, whatever the derives do
+    if matches!(from_attr, FromAttr::Forward) && nf == 1 && impls.iter().any(|i| i.kind == 0 && i.target == vec![Ty::F(fams[0])]) {
+        from_attr = FromAttr::None;
+        labels.push("forward_vs_into_fixup".into());
+    }
+
+    // ---- item text
+    let mut derives = vec![];
+    if d_from {
+        derives.push("derive_more::From");
+    }
+    if d_into {
+        derives.push("derive_more::Into");
+    }
+    if d_ctor {
+        derives.push("derive_more::Constructor");
+    }
+    let mut attrs = String::new();
+    if d_from {
+        attrs.push_str(&from_attr.render(""));
+    }
+    if let (true, Some(a)) = (d_into, &into_struct) {
+        for l in a.render() {
+            attrs.push_str(&l);
+            attrs.push('\n');
+        }
+    }
+    let semi = if shape == Shape::Named { "" } else { ";" };
+    let item = format!(
+        "#[derive(Debug, Clone, PartialEq, {})]\n{attrs}pub struct S{}{semi}",
+        derives.join(", "),
+        decl_fields(shape, &fields, d_into)
+    );
+    let control = format!("#[derive(Debug, Clone, PartialEq)]\npub struct S{}{semi}", decl_fields(shape, &fields, false));
+    let vals: Vec<u32> = fields.iter().map(|f| f.val).collect();
+    let mut run = String::new();
+    let mut probes = Probes::new();
+
+    // ---- From oracle
+    let mut roundtrip = false;
+    if d_from {
+        let srcs = from_sources(&from_attr, &fams, false, false);
+        for s in &srcs {
+            match s {
+                Src::Concrete(t) => from_block(&mut run, d, "S", "S", shape, &fields, t),
+                Src::Forward(fams) => {
+                    // the all-A instantiation and a random one
+                    let a: Vec<Ty> = fams.iter().map(|f| Ty::A(*f)).collect();
+                    from_block(&mut run, d, "S", "S", shape, &fields, &a);
+                    let r: Vec<Ty> = fams.iter().map(|f| [Ty::B(*f), Ty::F(*f), Ty::A(*f)][d.pick(3)]).collect();
+                    if r != a {
+                        from_block(&mut run, d, "S", "S", shape, &fields, &r);
+                    }
+                }
+            }
+        }
+        for u in from_candidates(d, &fams, &from_attr) {
+            let exp = srcs.iter().any(|s| src_matches(s, &u));
+            probes.add("S".into(), tys_str(&u), exp);
+        }
+        probes.add_nominated(nominate(&item, "From"));
+        labels.push("derive=From".into());
+        labels.push(format!("from_attr={}", from_attr.label()));
+        if let FromAttr::Types(g) = &from_attr {
+            if g.len() > 1 {
+                labels.push("from_repeated_attr".into());
+            }
+            if nf >= 2 {
+                labels.push("from_tuple_types".into());
+            }
+        }
+        if matches!(from_attr, FromAttr::Forward | FromAttr::Types(_)) && nf >= 2 {
+            labels.push("from_converting_multi_field".into());
+        }
+    }
+    // ---- Into oracle
+    if d_into {
+        for im in &impls {
+            into_block(&mut run, d, shape, &fields, im);
+        }
+        // candidates
+        let key = |k: usize, t: &[Ty]| impls.iter().any(|i| i.kind == k && i.target == t);
+        let mut cands: Vec<(usize, Vec<Ty>)> = impls.iter().map(|i| (i.kind, i.target.clone())).collect();
+        let all: Vec<Ty> = fams.iter().map(|f| Ty::F(*f)).collect();
+        let nonskipped: Vec<Ty> = fields.iter().filter(|f| f.into_skip.is_none()).map(|f| Ty::F(f.fam)).collect();
+        for k in 0..3 {
+            cands.push((k, all.clone()));
+            cands.push((k, nonskipped.clone()));
+            let mut r = nonskipped.clone();
+            r.reverse();
+            cands.push((k, r));
+            for f in &fields {
+                cands.push((k, vec![Ty::F(f.fam)]));
+            }
+        }
+        for i in &impls {
+            for k in 0..3 {
+                if k != i.kind {
+                    // the same target under another reference kind (only spellings that are types the prelude knows)
+                    cands.push((k, i.target.clone()));
+                }
+            }
+        }
+        for (k, t) in cands {
+            probes.add(kind_tys_str(k, &t, true), format!("{}S", REF_TY_STATIC[k]), key(k, &t));
+        }
+        probes.add_nominated(nominate(&item, "Into"));
+        labels.push("derive=Into".into());
+        for im in &impls {
+            labels.push(format!("into_kind={}", KIND_NAME[im.kind]));
+            if im.target.iter().any(|a| a.log_id(im.kind).is_some()) {
+                labels.push(format!("into_typed_{}", KIND_NAME[im.kind]));
+                if im.target.len() >= 2 {
+                    labels.push("into_tuple_types".into());
+                }
+            }
+            if im.field_level {
+                labels.push("into_field_level".into());
+            }
+        }
+        let skipped_before = fields.iter().enumerate().any(|(i, f)| f.into_skip.is_some() && fields[i + 1..].iter().any(|g| g.into_skip.is_none()));
+        if fields.iter().any(|f| f.into_skip.is_some()) {
+            labels.push("into_skip".into());
+        }
+        if skipped_before {
+            labels.push("into_skip_before_kept_field".into());
+        }
+        if fields.iter().any(|f| f.into_skip.is_some() && f.into_attr.is_some()) {
+            labels.push("into_skip_and_field_conversion".into());
+        }
+        if fields.iter().any(|f| f.into_attr.is_some()) && into_struct.is_none() {
+            labels.push("into_field_attr_suppresses_struct_level".into());
+        }
+        let reps = |a: &Option<IntoAttr>| matches!(a, Some(IntoAttr::Parts(p)) if p.len() > 1);
+        if reps(&into_struct) || fields.iter().any(|f| reps(&f.into_attr)) {
+            labels.push("into_repeated_attr".into());
+        }
+        labels.push(format!(
+            "into_struct_attr={}",
+            match &into_struct {
+                None => "none",
+                Some(IntoAttr::Empty) => "empty",
+                Some(IntoAttr::Parts(p)) if matches!(p.first(), Some(IntoPart::Plain(_))) => "types",
+                Some(_) => "kinds",
+            }
+        ));
+        if impls.is_empty() {
+            labels.push("into_no_impl".into());
+        }
+        roundtrip = d_from && matches!(from_attr, FromAttr::None) && impls.iter().any(|i| i.kind == 0 && !i.field_level && i.target == all);
+    }
+    if roundtrip {
+        let tty = tys_str(&fams.iter().map(|f| Ty::F(*f)).collect::<Vec<_>>());
+        let _ = writeln!(
+            run,
+            "    {{\n        let s = mk();\n        let t = <{tty} as From<S>>::from(s.clone());\n        o.eq(\"S -> tuple -> S is the identity\", &format!(\"{{:?}}\", s), &format!(\"{{:?}}\", <S as From<{tty}>>::from(t.clone())));\n        o.eq(\"tuple -> S -> tuple is the identity\", &format!(\"{{:?}}\", t), &format!(\"{{:?}}\", <{tty} as From<S>>::from(<S as From<{tty}>>::from(t.clone()))));\n    }}"
+        );
+        labels.push("roundtrip".into());
+    }
+    // ---- Constructor oracle
+    if d_ctor {
+        let args = fields.iter().map(|f| format!("F{}::v({})", f.fam, f.val)).collect::<Vec<_>>().join(", ");
+        let _ = writeln!(
+            run,
+            "    o.eq(\"S::new(a0, a1, ..) puts the i-th argument into the i-th field\", &format!(\"{{:?}}\", mk()), &format!(\"{{:?}}\", S::new({args})));"
+        );
+        if d_from && matches!(from_attr, FromAttr::None) {
+            let tty = tys_str(&fams.iter().map(|f| Ty::F(*f)).collect::<Vec<_>>());
+            let tv = tup(&fields.iter().map(|f| format!("F{}::v({})", f.fam, f.val)).collect::<Vec<_>>());
+            let _ = writeln!(run, "    o.check(\"S::new(..) == S::from((..))\", S::new({args}) == <S as From<{tty}>>::from({tv}));");
+        }
+        labels.push("derive=Constructor".into());
+    }
+    probes.render(&mut run);
+    if probes.nominated_extra > 0 {
+        labels.push("nominated_extra_header".into());
+    }
+    if probes.nominated_total > 0 {
+        labels.push("e1_headers_listed".into());
+    }
+    labels.push(format!("shape={}", ["unit", "tuple", "named"][shape as usize]));
+    labels.push(format!("nfields={nf}"));
+    let body = format!("{item}\nfn mk() -> S {{ {} }}\npub fn run(o: &mut Out) {{\n{run}}}", literal("S", shape, &fields, &vals));
+    let has_attr = !matches!(from_attr, FromAttr::None) || into_struct.is_some() || fields.iter().any(|f| f.into_skip.is_some() || f.into_attr.is_some());
+    finish(body, control, labels, nf >= 2 || has_attr, json!({"kind": "struct", "nfields": nf}))
+}
+
+fn finish(body: String, control: String, mut labels: Vec<String>, nontrivial: bool, meta: serde_json::Value) -> GenCase {
+    labels.sort();
+    labels.dedup();
+    let mut c = GenCase::new(body);
+    c.control = Some(control);
+    c.labels = labels;
+    c.nontrivial = nontrivial;
+    c.meta = meta;
+    c
+}
+
+// ------------------------------------------------------------------------------------------------
+// enum cases
+
+struct Var {
+    name: &'static str,
+    shape: Shape,
+    fields: Vec<Fld>,
+    attr: FromAttr,
+}
+
+fn build_enum(d: &mut Dice) -> GenCase {
+    let mut labels = vec!["kind=enum".to_string(), "derive=From".to_string()];
+    let nv = [2, 1, 3, 4][d.weighted(&[4, 2, 4, 3])];
+    let names = ["Va", "Vb", "Vc", "Vd"];
+    let mut vars: Vec<Var> = vec![];
+    for name in names.iter().take(nv) {
+        let nf = [1, 2, 0, 3][d.weighted(&[4, 4, 2, 2])];
+        let shape = shape_draw(d, nf);
+        let mut l = vec![];
+        let fields = gen_fields(d, nf, shape, &mut l);
+        labels.extend(l);
+        let fams: Vec<u8> = fields.iter().map(|f| f.fam).collect();
+        let attr = if nf == 0 {
+            match d.weighted(&[5, 3, 2]) {
+                0 => FromAttr::None,
+                1 => FromAttr::Empty,
+                _ => FromAttr::Skip(if d.chance(30) { "ignore" } else { "skip" }),
+            }
+        } else {
+            match d.weighted(&[8, 3, 3, 3, 3]) {
+                0 => FromAttr::None,
+                1 => FromAttr::Empty,
+                2 => FromAttr::Skip(if d.chance(30) { "ignore" } else { "skip" }),
+                3 => {
+                    let g = gen_from_types(d, &fams);
+                    if g.is_empty() {
+                        FromAttr::None
+                    } else {
+                        FromAttr::Types(g)
+                    }
+                }
+                _ => FromAttr::Forward,
+            }
+        };
+        vars.push(Var { name, shape, fields, attr });
+    }
+    // coherence: a variant whose impls would overlap with an earlier variant's is skipped explicitly
+    let mut fixups = 0;
+    let (has_explicit, var_srcs) = loop {
+        let has_explicit = vars.iter().any(|v| matches!(v.attr, FromAttr::Empty | FromAttr::Types(_) | FromAttr::Forward));
+        let mut all: Vec<Src> = vec![];
+        let mut per: Vec<Vec<Src>> = vec![];
+        let mut clash = None;
+        for (i, v) in vars.iter().enumerate() {
+            let fams: Vec<u8> = v.fields.iter().map(|f| f.fam).collect();
+            let s = from_sources(&v.attr, &fams, true, has_explicit);
+            if s.iter().any(|a| all.iter().any(|b| srcs_overlap(a, b))) {
+                clash = Some(i);
+                break;
+            }
+            all.extend(s.iter().cloned());
+            per.push(s);
+        }
+        match clash {
+            Some(i) => {
+                vars[i].attr = FromAttr::Skip("skip");
+                fixups += 1;
+            }
+            None => break (has_explicit, per),
+        }
+    };
+    if fixups > 0 {
+        labels.push("enum_coherence_fixup".into());
+    }
+    let all_srcs: Vec<Src> = var_srcs.iter().flatten().cloned().collect();
+
+    let mut item = String::from("#[derive(Debug, Clone, PartialEq, derive_more::From)]\npub enum E {\n");
+    let mut control = String::from("#[derive(Debug, Clone, PartialEq)]\npub enum E {\n");
+    for v in &vars {
+        item.push_str(&v.attr.render("    "));
+        let _ = writeln!(item, "    {}{},", v.name, decl_fields(v.shape, &v.fields, false));
+        let _ = writeln!(control, "    {}{},", v.name, decl_fields(v.shape, &v.fields, false));
+    }
+    item.push('}');
+    control.push('}');
+
+    let mut run = String::new();
+    let mut probes = Probes::new();
+    for (v, srcs) in vars.iter().zip(&var_srcs) {
+        let path = format!("E::{}", v.name);
+        for s in srcs {
+            match s {
+                Src::Concrete(t) => from_block(&mut run, d, "E", &path, v.shape, &v.fields, t),
+                Src::Forward(fams) => {
+                    let a: Vec<Ty> = fams.iter().map(|f| Ty::A(*f)).collect();
+                    from_block(&mut run, d, "E", &path, v.shape, &v.fields, &a);
+                    let r: Vec<Ty> = fams.iter().map(|f| [Ty::B(*f), Ty::F(*f), Ty::A(*f)][d.pick(3)]).collect();
+                    // the reflexive instantiation may belong to another variant's concrete impl: only use the
+                    // instantiation if the model attributes it to this variant alone
+                    if r != a && all_srcs.iter().filter(|s| src_matches(s, &r)).count() == 1 {
+                        from_block(&mut run, d, "E", &path, v.shape, &v.fields, &r);
+                    }
+                }
+            }
+        }
+        let fams: Vec<u8> = v.fields.iter().map(|f| f.fam).collect();
+        for u in from_candidates(d, &fams, &v.attr) {
+            let exp = all_srcs.iter().any(|s| src_matches(s, &u));
+            probes.add("E".into(), tys_str(&u), exp);
+        }
+        labels.push(format!("from_attr={}", v.attr.label()));
+        if let FromAttr::Types(g) = &v.attr {
+            if g.len() > 1 {
+                labels.push("from_repeated_attr".into());
+            }
+            if v.fields.len() >= 2 {
+                labels.push("from_tuple_types".into());
+            }
+        }
+        if matches!(v.attr, FromAttr::Forward | FromAttr::Types(_)) && v.fields.len() >= 2 {
+            labels.push("from_converting_multi_field".into());
+        }
+        if v.fields.is_empty() {
+            labels.push(match v.attr {
+                FromAttr::Empty => "fieldless_variant_with_from",
+                _ => "fieldless_variant_without_impl",
+            }
+            .into());
+        }
+        if matches!(v.attr, FromAttr::None) && has_explicit && !v.fields.is_empty() {
+            labels.push("unannotated_variant_in_explicit_mode".into());
+            if !vars.iter().any(|w| matches!(w.attr, FromAttr::Empty)) {
+                labels.push("explicit_mode_by_types_or_forward_only".into());
+            }
+        }
+    }
+    probes.add_nominated(nominate(&item, "From"));
+    probes.render(&mut run);
+    if probes.nominated_extra > 0 {
+        labels.push("nominated_extra_header".into());
+    }
+    if probes.nominated_total > 0 {
+        labels.push("e1_headers_listed".into());
+    }
+    labels.push(format!("nvariants={nv}"));
+    if all_srcs.is_empty() {
+        labels.push("enum_without_impl".into());
+    }
+    let body = format!("{item}\npub fn run(o: &mut Out) {{\n{run}}}");
+    let has_attr = vars.iter().any(|v| !matches!(v.attr, FromAttr::None));
+    let maxf = vars.iter().map(|v| v.fields.len()).max().unwrap_or(0);
+    finish(body, control, labels, nv >= 2 || has_attr || maxf >= 2, json!({"kind": "enum", "nvariants": nv}))
+}
+
+// ------------------------------------------------------------------------------------------------
+// inputs that must be rejected
+
+fn build_negative(d: &mut Dice) -> GenCase {
+    let mut labels = vec!["negative".to_string()];
+    let which = d.pick(6);
+    let nf = 2 + d.pick(2);
+    let shape = shape_draw(d, nf);
+    let mut l = vec![];
+    let fields = gen_fields(d, nf, shape, &mut l);
+    let fams: Vec<u8> = fields.iter().map(|f| f.fam).collect();
+    let semi = if shape == Shape::Named { "" } else { ";" };
+    let decl = decl_fields(shape, &fields, false);
+    // a listed type of the wrong arity: one component too many / too few (one left: not a tuple at all)
+    let wrong = |d: &mut Dice, letter: fn(u8) -> Ty| -> String {
+        let mut t: Vec<Ty> = fams.iter().map(|f| letter(*f)).collect();
+        if d.chance(50) {
+            t.push(letter(3));
+        } else {
+            t.pop();
+        }
+        tys_str(&t)
+    };
+    let (body, what) = match which {
+        0 => (format!("#[derive(derive_more::From)]\n#[from({})]\npub struct S{decl}{semi}", wrong(d, Ty::A)), "from_types_wrong_arity_struct"),
+        1 => (
+            format!("#[derive(derive_more::From)]\npub enum E {{\n    #[from({})]\n    Va{decl},\n    Vb,\n}}", wrong(d, Ty::A)),
+            "from_types_wrong_arity_variant",
+        ),
+        2 => (format!("#[derive(derive_more::Into)]\n#[into({})]\npub struct S{decl}{semi}", wrong(d, Ty::X)), "into_types_wrong_arity"),
+        3 => {
+            let k = 1 + d.pick(2);
+            (format!("#[derive(derive_more::Into)]\n#[into({}({}))]\npub struct S{decl}{semi}", KIND_NAME[k], wrong(d, Ty::R)), "into_ref_types_wrong_arity")
+        }
+        4 => (format!("#[derive(derive_more::Into)]\npub enum E {{\n    Va{decl},\n}}"), "into_on_enum"),
+        _ => (format!("#[derive(derive_more::Constructor)]\npub enum E {{\n    Va{decl},\n}}"), "constructor_on_enum"),
+    };
+    labels.push(format!("negative={what}"));
+    let control = body.lines().filter(|l| !l.trim_start().starts_with("#[")).collect::<Vec<_>>().join("\n");
+    let mut c = finish(body, control, labels, true, json!({"kind": "negative", "what": what}));
+    c.expect_compile = false;
+    c.runnable = false;
+    c
+}
+
+fn build(d: &mut Dice) -> GenCase {
+    match d.weighted(&[60, 34, 6]) {
+        0 => build_struct(d),
+        1 => build_enum(d),
+        _ => build_negative(d),
+    }
+}
+
+// ------------------------------------------------------------------------------------------------
+// fixed cases: a one-field struct / variant / field with a *tuple* type listed. The documentation promises
+// one impl per listed type ("specify concrete types"); the field type `W0` converts from / into the tuple
+// as a whole.
+
+fn fixed() -> Vec<GenCase> {
+    let mk = |item: &str, run: &str, control: &str, what: &str, bound: &str| {
+        let body = format!("{item}\npub fn run(o: &mut Out) {{\n{run}}}");
+        let mut c = finish(
+            body,
+            control.to_string(),
+            vec!["single_field_tuple_type".into(), format!("single_field_tuple_type={what}")],
+            true,
+            json!({"kind": "single_field_tuple_type", "what": what, "predicted_unsatisfied_bound": bound}),
+        );
+        c.nontrivial = true;
+        c
+    };
+    let from_run = |ty: &str, lit: &str| {
+        format!(
+            "    let _ = take_log();\n    let v = <{ty} as From<(A0, A1)>>::from((A0(11), A1(22)));\n    o.eq(\"{ty}::from((A0, A1)) converts the listed tuple as a whole\", &format!(\"{{:?}}\", {lit}), &format!(\"{{:?}}\", v));\n    o.eq(\"exactly one user-level From::from\", \"[91]\", &take_log());\n    o.eq(\"impl `{ty}: From<W0>` exists\", \"false\", &impls!({ty}, W0).to_string());\n"
+        )
+    };
+    let into_run = "    let _ = take_log();\n    let t = <(X0, X1) as From<S>>::from(S(W0(11, 22)));\n    o.eq(\"<(X0, X1)>::from(S) converts the field as a whole\", \"(X0(11), X1(22))\", &format!(\"{:?}\", t));\n    o.eq(\"exactly one user-level From::from\", \"[92]\", &take_log());\n    o.eq(\"impl `W0: From<S>` exists\", \"false\", &impls!(W0, S).to_string());\n";
+    vec![
+        mk(
+            "#[derive(Debug, Clone, PartialEq, derive_more::From)]\n#[from((A0, A1))]\npub struct S(W0);",
+            &from_run("S", "S(W0(11, 22))"),
+            "pub struct S(W0);",
+            "from_struct",
+            "W0: From<A0>",
+        ),
+        mk(
+            "#[derive(Debug, Clone, PartialEq, derive_more::From)]\npub enum E {\n    #[from((A0, A1))]\n    Va { z: W0 },\n    Vb(F1),\n}",
+            &from_run("E", "E::Va { z: W0(11, 22) }"),
+            "pub enum E { Va { z: W0 }, Vb(F1) }",
+            "from_variant",
+            "W0: From<A0>",
+        ),
+        mk(
+            "#[derive(Debug, Clone, PartialEq, derive_more::Into)]\n#[into((X0, X1))]\npub struct S(W0);",
+            into_run,
+            "pub struct S(W0);",
+            "into_struct",
+            "X0: From<W0>",
+        ),
+        mk(
+            "#[derive(Debug, Clone, PartialEq, derive_more::Into)]\npub struct S(#[into((X0, X1))] W0, F1);",
+            &into_run.replace("S(W0(11, 22))", "S(W0(11, 22), F1::v(5))"),
+            "pub struct S(W0, F1);",
+            "into_field",
+            "X0: From<W0>",
+        ),
+    ]
+}
+
+/// Defect model `c08-single-field-tuple-type`: with exactly one field, a listed *tuple* type is split into
+/// its components (`FieldsExt::validate_type` returns the tuple's elements whatever the number of fields), so
+/// the impl for the listed tuple converts the whole value with `From<first component>` and rustc rejects the
+/// expansion with exactly that unsatisfied bound (plus the mismatched-types error it entails).
+fn classify(c: &GenCase, r: &CaseResult, f: &Finding) -> Option<String> {
+    if c.meta["kind"] == "single_field_tuple_type" && !r.compiled && f.expected == "compiles" {
+        let bound = c.meta["predicted_unsatisfied_bound"].as_str()?;
+        let only_expected_codes = r.errors.iter().all(|e| matches!(e.code.as_deref(), Some("E0277") | Some("E0308")));
+        let names_bound = r.errors.iter().any(|e| e.code.as_deref() == Some("E0277") && e.message.contains(&format!("`{bound}`")));
+        if only_expected_codes && names_bound {
+            return Some("c08-single-field-tuple-type".into());
+        }
+    }
+    None
 }
 
 pub fn prop() -> DiceProp {
     DiceProp {
         crate_name: "gen_c08",
-        prelude: String::new(),
+        prelude: PRELUDE.to_string(),
         crate_attrs: String::new(),
         nightly: false,
         check_only: false,
-        ndice: 64,
-        quick: (10, 1),
-        thorough: (10, 1),
+        ndice: 260,
+        quick: (1100, 1),
+        thorough: (2600, 6),
         build,
-        fixed: no_fixed,
-        classify: no_classify,
-        rule: "stub".into(),
-        assumptions: vec![],
-        floors: vec![],
+        fixed,
+        classify,
+        rule: "one struct deriving a non-empty subset of From/Into/Constructor (unit, tuple, named; 0..4 fields) or one enum deriving From (1..4 variants with 0..3 fields), field types pairwise distinct / all equal / partly equal newtypes with pairwise distinct values and non-alphabetical declaration order; attributes: none, #[from], #[from(skip|ignore)], #[from(T..)] incl. tuple types and repeated attributes, #[from(forward)] on struct and variant; #[into], #[into(T..)], #[into(owned|ref|ref_mut[(T..)])], repeated, field-level conversions, skip/ignore, skip together with a field conversion; plus inputs that must be rejected (listed type of wrong arity, Into/Constructor on an enum). Oracle inside the program: converted value == literal with the i-th component in the i-th field; Into components == the non-skipped fields in declaration order, ref/ref_mut components have the fields' addresses and writes through them reach exactly those fields; round trips are the identity; the sorted log of user-level From impls executed == one per converted field; `T: From<U>` holds exactly for the pairs the documented rules give, over the listed types and systematic near misses (own tuple, all-A tuple, F/A/B substitutions, other family, reversed, one field less/more, unit, other reference kind, per-field) plus the impl headers nominated by the in-process expansion. non-trivial = >=2 fields, or an attribute, or an enum with >=2 variants; distinct by program text".into(),
+        assumptions: vec![
+            "the inherent-const-vs-blanket-trait probe decides `T: From<U>` for concrete types (verified against present and absent impls)".into(),
+            "field types are local newtypes without generics; generic parameters are C01's domain".into(),
+        ],
+        floors: vec![
+            ("kind=enum".into(), 0.2),
+            ("derive=Into".into(), 0.25),
+            ("derive=Constructor".into(), 0.12),
+            ("types=all_equal".into(), 0.1),
+            ("types=pairwise_distinct".into(), 0.25),
+            ("from_attr=types".into(), 0.15),
+            ("from_attr=forward".into(), 0.1),
+            ("from_attr=skip".into(), 0.08),
+            ("from_attr=empty".into(), 0.08),
+            ("from_tuple_types".into(), 0.06),
+            ("from_repeated_attr".into(), 0.03),
+            ("from_converting_multi_field".into(), 0.1),
+            ("unannotated_variant_in_explicit_mode".into(), 0.08),
+            ("explicit_mode_by_types_or_forward_only".into(), 0.03),
+            ("fieldless_variant_without_impl".into(), 0.04),
+            ("into_kind=ref".into(), 0.08),
+            ("into_kind=ref_mut".into(), 0.08),
+            ("into_typed_owned".into(), 0.05),
+            ("into_typed_ref".into(), 0.02),
+            ("into_typed_ref_mut".into(), 0.02),
+            ("into_tuple_types".into(), 0.03),
+            ("into_skip".into(), 0.1),
+            ("into_skip_before_kept_field".into(), 0.05),
+            ("into_field_level".into(), 0.08),
+            ("into_field_attr_suppresses_struct_level".into(), 0.03),
+            ("into_skip_and_field_conversion".into(), 0.01),
+            ("into_repeated_attr".into(), 0.03),
+            ("roundtrip".into(), 0.03),
+            ("negative".into(), 0.03),
+        ],
         shards: 0,
     }
 }
